@@ -299,6 +299,9 @@ pub struct SimNode {
     pub events: Arc<Mutex<Vec<TransportEvent>>>,
     pub log: Arc<Mutex<Vec<NodeLog>>>,
     pub main_task: usize,
+    /// "busy application": while the flag is set the node's event loop does not poll the node again after it has
+    /// received an event, until `notify_one` on the `Notify` after clearing the flag
+    pub hold_after_event: Arc<(std::sync::atomic::AtomicBool, tokio::sync::Notify)>,
     pub alive: bool,
     /// tasks belonging to this node (to freeze / kill it)
     pub tasks: Vec<usize>,
@@ -376,6 +379,8 @@ impl World {
         let events: Arc<Mutex<Vec<TransportEvent>>> = Arc::new(Mutex::new(Vec::new()));
         let log: Arc<Mutex<Vec<NodeLog>>> = Arc::new(Mutex::new(Vec::new()));
         let (ev2, log2) = (events.clone(), log.clone());
+        let hold_after_event: Arc<(std::sync::atomic::AtomicBool, tokio::sync::Notify)> = Arc::new((std::sync::atomic::AtomicBool::new(false), tokio::sync::Notify::new()));
+        let hold2 = hold_after_event.clone();
         let main_task = self.driver.spawn(format!("n{idx}:manager"), async move {
             loop {
                 tokio::select! {
@@ -399,6 +404,9 @@ impl World {
                         Some(e) => {
                             log2.lock().push(NodeLog::Event(format!("{e:?}")));
                             ev2.lock().push(e);
+                            while hold2.0.load(std::sync::atomic::Ordering::SeqCst) {
+                                hold2.1.notified().await;
+                            }
                         }
                         None => return,
                     },
@@ -414,6 +422,7 @@ impl World {
             events,
             log,
             main_task,
+            hold_after_event,
             alive: true,
             tasks: vec![main_task],
             calls_seen: 0,
